@@ -291,6 +291,9 @@ func runIODiscipline(p *Program, r *Report) {
 
 	// R13f.
 	checkRecordBufferRewritten(p, r, reach)
+
+	// R13g.
+	checkNoReadAhead(p, r, reach)
 }
 
 // ---------------------------------------------------------------------------
@@ -1019,4 +1022,102 @@ func staticLen(v ssa.Value) int64 {
 		return -1
 	}
 	return hi - lo
+}
+
+// ---------------------------------------------------------------------------
+// R13g NO-READ-AHEAD. The byte count a restore function reports, and the
+// position it leaves the caller's reader at, are right only if every byte is
+// taken from that reader by the function itself. Handing the reader to a
+// wrapper (bufio.NewReader, io.LimitReader, io.ReadAll, ...) lets the wrapper
+// take more than is reported: what follows the forest in the stream is lost.
+// The caller's reader may flow only into io.ReadFull / io.ReadAtLeast, into a
+// package function with a stream parameter (checked in turn), into a closure of
+// the package, or be invoked directly (Read - which R13a reports).
+
+func checkNoReadAhead(p *Program, r *Report, reach map[*ssa.Function]bool) {
+	rule := "R13g"
+	r.Rule(rule, "NO-READ-AHEAD: the caller's io.Reader is consumed only by io.ReadFull / io.ReadAtLeast and by package stream functions, never handed to a wrapper that may read ahead of the reported count")
+	n := 0
+	for _, fn := range sortedFuncs(p, reach) {
+		if fn.Blocks == nil || !p.owns(fn) {
+			continue
+		}
+		var readers []ssa.Value
+		for _, par := range fn.Params {
+			if isIOInterface(par.Type(), "Reader") {
+				readers = append(readers, par)
+			}
+		}
+		for _, fv := range fn.FreeVars {
+			if pt, ok := fv.Type().Underlying().(*types.Pointer); ok && isIOInterface(pt.Elem(), "Reader") {
+				readers = append(readers, fv)
+			} else if isIOInterface(fv.Type(), "Reader") {
+				readers = append(readers, fv)
+			}
+		}
+		for _, rd := range readers {
+			n++
+			key := fmt.Sprintf("%s/reader:%s", p.FuncName(fn), rd.Name())
+			var bad ssa.Instruction
+			why := ""
+			uses := 0
+			seen := map[ssa.Value]bool{}
+			var walk func(v ssa.Value)
+			walk = func(v ssa.Value) {
+				if seen[v] || v.Referrers() == nil {
+					return
+				}
+				seen[v] = true
+				for _, ref := range *v.Referrers() {
+					switch x := ref.(type) {
+					case *ssa.DebugRef:
+					case *ssa.Store:
+						if x.Val == v {
+							// spilled into a local (captured by a closure): follow the cell
+							if al, ok := x.Addr.(*ssa.Alloc); ok {
+								walk(al)
+							} else if bad == nil {
+								bad, why = ref, "is stored away"
+							}
+						}
+					case *ssa.UnOp:
+						walk(x)
+					case *ssa.Phi, *ssa.ChangeInterface, *ssa.MakeInterface, *ssa.ChangeType:
+						walk(x.(ssa.Value))
+					case *ssa.MakeClosure:
+						// closures of the package are analysed as functions with a reader free variable
+					case ssa.CallInstruction:
+						cc := x.Common()
+						uses++
+						if cc.IsInvoke() && cc.Value == v {
+							continue // direct Read: R13a
+						}
+						kind := ioCallKind(p, cc)
+						if kind == "fullread" || kind == "stream" {
+							continue
+						}
+						if sc := cc.StaticCallee(); sc != nil && p.owns(sc) {
+							if rdr, _ := hasStreamParam(sc.Signature); rdr {
+								continue
+							}
+						}
+						if bad == nil {
+							bad, why = ref, "is handed to "+calleeLabel(p, cc)
+						}
+					default:
+						if bad == nil {
+							bad, why = ref, "escapes into "+ref.String()
+						}
+					}
+				}
+			}
+			walk(rd)
+			if bad != nil {
+				r.Violate(rule, key, posOf(p, bad), "the caller's reader "+why+", which may take more bytes from it than this function reports: the count is wrong and whatever follows in the stream is lost", "in "+p.FuncName(fn))
+			} else {
+				r.Discharge(rule, key, p.Pos(fn.Pos()), fmt.Sprintf("the reader flows only into io.ReadFull/io.ReadAtLeast and package stream functions (%d uses)", uses), uses > 0)
+			}
+		}
+	}
+	r.Floor(rule, "functions holding the caller's reader", n, 3)
 }
